@@ -263,6 +263,14 @@ def pinnedFacts : List Nat := [
   993244962204717,  -- guards src/service/reward_calculator.go RewardCalculator.calculateRewardPerBlock [_ != 0 | nil == _.GroupId | _ != 'fork' | _ == nil | _ != 0] — branch conditions (locals blanked) of RewardCalculator.calculateRewardPerBlock in source order, as followed by the model
   4482658790777760,  -- guards src/service/reward_calculator.go addReward [_] — branch conditions (locals blanked) of addReward in source order, as followed by the model
   2982317221269302,  -- guards src/service/transaction_pool.go TxPool.ProcessFee [common.IsProposal026() | _.Cmp(_) < 0] — branch conditions (locals blanked) of TxPool.ProcessFee in source order, as followed by the model
+  2556450385335009,  -- fields src/storage/account/account_object.go accountObject [address common.Address; addrHash common.Hash; data Account; db *AccountDB; dbErr error; trie Trie; nftSet *ast.ArrayType; dirtyNFTSet bool; cachedLock sync.RWMutex; cachedStorage Storage; dirtyStorage Storage; suicided bool; touched bool; deleted bool; onDirty *ast.FuncType] — field list of accountObject: a state handle (AccountDB on a root) owns its trie and objects; storageDB keeps no cache of tries, so handles opened on the same root never share a mutable trie
+  612237959989873,  -- guards src/storage/account/accountdatasource.go NewDatabase [] — branch conditions (locals blanked) of NewDatabase in source order, as followed by the model
+  1458558267746951,  -- fields src/storage/account/accountdatasource.go storageDB [db *trie.NodeDatabase; mu sync.Mutex; codeSizeCache *lru.Cache; codeCache *fastcache.Cache] — field list of storageDB: a state handle (AccountDB on a root) owns its trie and objects; storageDB keeps no cache of tries, so handles opened on the same root never share a mutable trie
+  4366626866693257,  -- guards src/storage/account/accountdatasource.go storageDB.CopyTrie [] — branch conditions (locals blanked) of storageDB.CopyTrie in source order, as followed by the model
+  74665269401649,  -- guards src/storage/account/accountdatasource.go storageDB.OpenStorageTrie [] — branch conditions (locals blanked) of storageDB.OpenStorageTrie in source order, as followed by the model
+  34068632992642,  -- guards src/storage/account/accountdatasource.go storageDB.OpenTrie [_ != nil] — branch conditions (locals blanked) of storageDB.OpenTrie in source order, as followed by the model
+  668383076264713,  -- fields src/storage/account/accountdb.go AccountDB [db AccountDatabase; trie Trie; accessList *accessList; accountObjectsLock *sync.Mutex; accountObjects *sync.Map; accountObjectsDirty *ast.MapType; dbErr error; refund uint64; transientStorage transientStorage; transitions transition; validRevisions *ast.ArrayType; nextRevisionID int; thash common.Hash; bhash common.Hash; txIndex int; logs *ast.MapType; logSize uint] — field list of AccountDB: a state handle (AccountDB on a root) owns its trie and objects; storageDB keeps no cache of tries, so handles opened on the same root never share a mutable trie
+  627130064648257,  -- guards src/storage/account/accountdb.go NewAccountDB [_ != nil] — branch conditions (locals blanked) of NewAccountDB in source order, as followed by the model
   3369878446308394  -- bound src/vm/instructions.go opBlockhash [GetHash iff num64 >= lower && num64 < upper] — BLOCKHASH asks the node chain index only for lower <= n < BlockNumber: strictly below the executing height (Model.blockhashAsksChain, blockhash_reads_only_ancestors)
 ]
 
@@ -298,7 +306,7 @@ theorem process_local_reads_pinned :
 
 /-- the statement-order fact of `VMExecutor.Execute` and the BLOCKHASH window are exactly the pinned ones -/
 theorem order_and_bounds_pinned :
-    ((sites.filter (fun s => s.kind == "order" || s.kind == "bound" || s.kind == "guards")).map (·.key)) = pinnedFacts := by
+    ((sites.filter (fun s => s.kind == "order" || s.kind == "bound" || s.kind == "guards" || s.kind == "fields")).map (·.key)) = pinnedFacts := by
   decide
 
 example : processLocalAccounted ≠ [] := by decide
